@@ -850,3 +850,9 @@ M('c01e-flag-read-into-differently-named-local-keep', 'C01', 'keep', TX, None, N
 # ---------------- D35 chunk-length probe consults the carry buffer
 M('c03b-d35-probe-ignores-carry', 'C03', 'break', RS,
   '    size_t buffered = (connp->out_buf != NULL) ? connp->out_buf_size : 0;', '    size_t buffered = 0;', 'C03')
+
+# ---------------- C02.h lock-step cursors
+M('c02h-trim-end-follows-examined-position', 'C02', 'break', 'htp/htp_request_generic.c',
+  '        prev--;\n        value_end--;', '        prev--;\n        value_end = prev;', 'C02.h')
+M('c02h-end-recomputed-from-position-keep', 'C02', 'keep', 'htp/htp_request_generic.c',
+  '        prev--;\n        value_end--;', '        prev--;\n        value_end = prev + 1;')
